@@ -39,6 +39,41 @@ def session():
 	return _SESSION
 
 
+_DISK: dict = {}
+
+
+def overwritten_file_session(previous: str, text: str):
+	"""-> (a new application, module name): the module file was written with `previous`, loaded (and cached) by one application, overwritten
+	with `text` (modification time a few milliseconds later) and is now met by a second application over the same cache directory."""
+	import atexit
+	import os
+	import shutil
+	import tempfile
+	from rogw.tranp.app.env import SourceEnvPath
+	from vf.session import Session
+	if not _DISK:
+		_DISK['dir'] = tempfile.mkdtemp(prefix='vf-c02-')
+		_DISK['n'] = 0
+		atexit.register(lambda: shutil.rmtree(_DISK['dir'], ignore_errors=True))
+		os.makedirs(os.path.join(_DISK['dir'], 'src'))
+	_DISK['n'] += 1
+	src_dir = os.path.join(_DISK['dir'], 'src')
+	name = f'vf02_ow{_DISK["n"]}'
+	file = os.path.join(src_dir, name + '.py')
+	t0 = 1_700_000_000.0 + 10 * _DISK['n']
+	extra = {'rogw.tranp.app.env.SourceEnvPath': lambda: SourceEnvPath.instantiate([src_dir])}
+	with open(file, 'w', encoding='utf-8', newline='') as f:
+		f.write(previous)
+	os.utime(file, (t0, t0))
+	first = Session(cache_dir=os.path.join(_DISK['dir'], 'cache'), extra_definitions=extra)
+	first.entrypoint(name)
+	with open(file, 'w', encoding='utf-8', newline='') as f:
+		f.write(text)
+	dt = (0.004, 0.3, 0.75)[_DISK['n'] % 3]
+	os.utime(file, (t0 + dt, t0 + dt))
+	return Session(cache_dir=os.path.join(_DISK['dir'], 'cache'), extra_definitions=extra), name
+
+
 def check_case(acc: Acc, case: dict) -> None:
 	from rogw.tranp.errors import Errors
 	from vf.oracle import nodecanon
@@ -60,7 +95,12 @@ def check_case(acc: Acc, case: dict) -> None:
 	s = session()
 	name = '__main__' if case['kind'] == 'source' else case['module']
 	try:
-		if case['kind'] == 'source':
+		if case['kind'] == 'source' and case.get('previous') is not None:
+			# the text stands in a module *file* that held another accepted text a few milliseconds ago (loaded and cached by another
+			# application over the same cache directory): the tree is the tree of the text the file holds now
+			s, name = overwritten_file_session(case['previous'], text)
+			acc.see('compared', 'file overwritten after ' + ('the same text' if case['previous'] == text else 'another text'))
+		elif case['kind'] == 'source':
 			s.set_source('__main__', text)
 		s.entrypoints.unload(name)
 		ep = s.entrypoint(name)
@@ -126,6 +166,8 @@ def classify(v: dict) -> str | None:
 
 
 SPECIAL = [
+	# defs below control flow in a class body are methods / constructors / class methods like those directly in the body
+	'class A:\n\tif X:\n\t\tdef f(self) -> None:\n\t\t\tpass\n\t\tdef __init__(self) -> None:\n\t\t\tself.a = 1\n\telse:\n\t\tdef f(self, a: int) -> None:\n\t\t\tpass\n\ttry:\n\t\t@classmethod\n\t\tdef make(cls) -> None:\n\t\t\tpass\n\texcept E as e:\n\t\tdef g(self) -> None:\n\t\t\tpass\n\twith ctx as c:\n\t\tdef h(self) -> None:\n\t\t\tdef inner() -> None:\n\t\t\t\tpass\n\tfor i in xs:\n\t\tdef k(self) -> None:\n\t\t\tpass\n\twhile X:\n\t\tdef w(a: int) -> int:\n\t\t\treturn a\n',
 	'class A:\n\tdef f(cls, a: int) -> int:\n\t\treturn a\n\t@classmethod\n\tdef make(klass) -> None:\n\t\tpass\n\t@staticmethod\n\tdef g(cls) -> None:\n\t\tpass\n\tdef h(this) -> None:\n\t\tpass\ndef k(cls) -> None:\n\tpass\n',
 	'x = a - (b + c)\ny = a - (b - c)\nz = a or (b or c)\nw = a | (b | c)\nv = a and (b and c)\nu = (a - b) - c\nt = a ^ (b ^ c)\ns = a & (b & c)\n',
 	'with lock:\n\tpass\nwith a as b:\n\tpass\nwith open(p) as f, guard:\n\tpass\nwith self:\n\tpass\n',
@@ -156,6 +198,9 @@ def shard(ctx: Ctx, acc: Acc) -> None:
 	n = N_MODULES[ctx.tier]
 	real = real_module_paths()
 	if ctx.shard == 0:
+		# some of the fixed sources once more as module files that held the previous fixed source a moment ago
+		for i in range(1, len(SPECIAL), 4):
+			check_case(acc, {'kind': 'source', 'source': SPECIAL[i], 'previous': SPECIAL[i - 1], 'features': ['stmt:class']})
 		for i, text in enumerate(SPECIAL):
 			check_case(acc, {'kind': 'source', 'source': text, 'features': ['stmt:if']})
 		check_case(acc, {'kind': 'source', 'source': WITNESS_CHAIN, 'features': ['assign-chain']})
